@@ -61,7 +61,6 @@ class C14(EngineBase):
                              max_charges=cfg.get("max_charges", 3), max_size=cfg.get("max_size", 3))
             st.ctx.p_ctor_phases = cfg.get("p_ctor_phases", 0.0)
             st.ctx.nonfinite = True
-            st.ctx.deny.add("align_inplace")
             import random
             st.ctx.weights = ops.swarm_weights(random.Random(cfg["wseed"]))
         steps = []
@@ -154,7 +153,9 @@ class C14(EngineBase):
         before = self._snap_heap(heap)
         inplace = ops.is_inplace(step)
 
-        if inplace:
+        if op == "align_inplace":
+            self._exec_align_inplace(st, step, before)
+        elif inplace:
             self._exec_inplace(st, step, before)
         elif "crash" in step:
             self._exec_crash(st, step, before)
@@ -226,6 +227,52 @@ class C14(EngineBase):
             res = target
         ops.bind(step, heap, res)
         st.log.add("ok-inplace", [op, S.structure(res) if S.kind_of(res) in "AF" else S.kind_of(res)])
+
+    def _exec_align_inplace(self, st, step, before):
+        """drop_misaligned_sectors(a, b, ..., inplace=True): both arguments
+        are targets; in place they must become what the out-of-place call
+        (align_axes) returns, and nothing else may change."""
+        heap = st.heap
+        op = step["op"]
+        na, nb = step["in"]
+        ta, tb = heap[na], heap[nb]
+        cl = {na: S.clone(ta), nb: S.clone(tb)}
+        twin = {"op": "align_axes", "in": [na, nb], "out": list(step["out"]),
+                "a": {"axes": step["a"]["axes"]}}
+        expected = None
+        try:
+            expected = ops.run_step(twin, cl)
+        except HarnessError:
+            raise
+        except Exception:  # noqa: BLE001
+            expected = None
+        try:
+            res = ops.run_step(step, heap)
+        except HarnessError:
+            raise
+        except Exception as e:  # noqa: BLE001
+            st.stats["step.raised"] += 1
+            st.log.add("raised-inplace", [op, type(e).__name__])
+            for n in [n for n, v in heap.items() if v is ta or v is tb]:
+                del heap[n]
+            before = {n: s_ for n, s_ in before.items() if n in heap}
+            self._compare_heap(st, before, step, what="raised-inplace")
+            return
+        st.stats["step.ok"] += 1
+        st.stats["op." + op + ".inplace"] += 1
+        st.stats["reach.inplace"] += 1
+        self._compare_heap(st, before, step, skip_ids={id(ta), id(tb)}, what="in-place")
+        if expected is not None and len(expected) == 2:
+            st.stats["reach.inplace_twin"] += 1
+            for tgt, exp, nm in ((ta, expected[0], "first"), (tb, expected[1], "second")):
+                s_in, s_out = S.snap(tgt), S.snap(exp)
+                if s_in != s_out:
+                    field = S.diff_field(s_out, s_in)
+                    self.report(st, "inplace-equals-outofplace", op,
+                                f"{nm} argument in place differs from out-of-place in {field}: "
+                                + str(S.describe_diff(s_out, s_in)), ["in-place", field])
+        ops.bind(step, heap, res)
+        st.log.add("ok-inplace", [op, "pair"])
 
     def _exec_crash(self, st, step, before):
         heap = st.heap
